@@ -1076,3 +1076,297 @@ pub fn xzblk_header_alloc_guard() {
     vcover!(psize == 0x7F, "huge_props_size");
     vcover!(ok, "alloc_guard_ok");
 }
+
+// ---------------------------------------------------------------------------------------
+// decode_stream on a whole file WITH blocks (the block header parser scripted as in
+// read_block_fields): stream header, NB blocks (each: 12-byte header body + CRC, one
+// uncompressed LZMA2 chunk of 2 symbolic bytes, padding, no check), index with NB records,
+// footer. Everything but the payload bytes and one index field is concrete.
+// ---------------------------------------------------------------------------------------
+fn xz_file_with_blocks<const NB: usize, const DEV: usize>() {
+    let mut t = Tape::<16>::new();
+    let data: [u8; 4] = t.bytes::<4>();
+    BH_PRESENT.store(0, Ordering::Relaxed);
+    let mut f = [0u8; 96];
+    let mut n = 0usize;
+    let hdr = [0xFDu8, 0x37, 0x7A, 0x58, 0x5A, 0x00, 0x00, 0x00];
+    let mut i = 0;
+    while i < 8 {
+        f[n] = hdr[i];
+        n += 1;
+        i += 1;
+    }
+    let c = ref_crc32(&[0u8, 0u8]).to_le_bytes();
+    f[n] = c[0];
+    f[n + 1] = c[1];
+    f[n + 2] = c[2];
+    f[n + 3] = c[3];
+    n += 4;
+    let mut b = 0;
+    while b < NB {
+        let start = n;
+        f[n] = 3;
+        f[n + 1] = 0x00;
+        f[n + 2] = 0x21;
+        f[n + 3] = 0x01;
+        f[n + 4] = 0x16;
+        let c = ref_crc32(&f[start..start + 12]).to_le_bytes();
+        f[start + 12] = c[0];
+        f[start + 13] = c[1];
+        f[start + 14] = c[2];
+        f[start + 15] = c[3];
+        n = start + 16;
+        f[n] = 1;
+        f[n + 1] = 0;
+        f[n + 2] = 1;
+        f[n + 3] = data[2 * b];
+        f[n + 4] = data[2 * b + 1];
+        f[n + 5] = 0;
+        n += 6; // unpadded size 22
+        n += 2; // two zero padding bytes
+        b += 1;
+    }
+    // index
+    let istart = n;
+    f[n] = 0;
+    f[n + 1] = NB as u8;
+    n += 2;
+    let mut r = 0;
+    while r < NB {
+        f[n] = if DEV == 1 && r == NB - 1 { 23 } else { 22 };
+        f[n + 1] = 2;
+        n += 2;
+        r += 1;
+    }
+    while (n - istart) % 4 != 0 {
+        n += 1;
+    }
+    let c = ref_crc32(&f[istart..n]).to_le_bytes();
+    f[n] = c[0];
+    f[n + 1] = c[1];
+    f[n + 2] = c[2];
+    f[n + 3] = c[3];
+    n += 4;
+    let isize = n - istart;
+    // footer
+    let bs = ((isize / 4 - 1) as u32).to_le_bytes();
+    let ft = [bs[0], bs[1], bs[2], bs[3], 0u8, 0u8];
+    let c = ref_crc32(&ft).to_le_bytes();
+    f[n] = c[0];
+    f[n + 1] = c[1];
+    f[n + 2] = c[2];
+    f[n + 3] = c[3];
+    n += 4;
+    let mut k = 0;
+    while k < 6 {
+        f[n] = ft[k];
+        n += 1;
+        k += 1;
+    }
+    f[n] = 0x59;
+    f[n + 1] = 0x5A;
+    n += 2;
+    let mut rd = ArrReader::<96>::new(f, n);
+    let mut sink = RecSink::<8>::new();
+    let res = decode_stream(&mut rd, &mut sink);
+    let ok = res.is_ok();
+    forget(res);
+    if DEV == 0 {
+        vassert!(ok, "xz: a well-formed file with blocks decodes");
+        vassert!(sink.len == 2 * NB, "xz: output is the concatenation of the blocks' contents");
+        let mut q = 0;
+        while q < 2 * NB {
+            vassert!(sink.buf[q] == data[q], "xz: block contents in order");
+            q += 1;
+        }
+        vassert!(rd.pos == n, "xz: the whole file is consumed");
+    } else {
+        vassert!(!ok, "xz: an index record disagreeing with the decoded block is rejected");
+    }
+    vcover!(true, "end_reached");
+}
+
+//@ harness props=C03,C06,C11,C07 tier=thorough optional=yes unwind=8 unwindset=update_table:20,ref_crc32.0:10,ref_crc32.1:20,default_read_exact:4,decompress:4,scripted_block_header:5,decode_stream:5,check_index:5,xz_file_with_blocks:10 mem_gb=12 timeout=900 native=no cbmc=--max-field-sensitivity-array-size;128
+//@ bound: decode_stream on a whole .xz file (block header parser scripted): one block, well-formed; each block one uncompressed LZMA2 chunk of 2 symbolic bytes, check None
+#[cfg_attr(kani, kani::proof)]
+#[cfg_attr(kani, kani::stub(std::fmt::format, crate::verif_common::stub_format))]
+#[cfg_attr(kani, kani::stub(std::io::Error::is_interrupted, crate::verif_common::stub_not_interrupted))]
+#[cfg_attr(kani, kani::stub(crate::decode::xz::read_block_header, crate::decode::xz::verif_h::scripted_block_header))]
+#[cfg_attr(kani, kani::stub(crate::decode::lzma::DecoderState::new, crate::decode::stream::verif_h::new_scripted_lit))]
+#[cfg_attr(kani, kani::stub(crate::decode::lzbuffer::LzAccumBuffer::from_stream, crate::decode::lzbuffer::verif_h::accum_from_stream_with_capacity))]
+pub fn xz_file_blocks1_dev0() {
+    xz_file_with_blocks::<1, 0>()
+}
+
+//@ harness props=C03,C06,C11,C07 tier=thorough optional=yes unwind=8 unwindset=update_table:20,ref_crc32.0:10,ref_crc32.1:20,default_read_exact:4,decompress:4,scripted_block_header:5,decode_stream:5,check_index:5,xz_file_with_blocks:10 mem_gb=12 timeout=900 native=no cbmc=--max-field-sensitivity-array-size;128
+//@ bound: decode_stream on a whole .xz file (block header parser scripted): two blocks, well-formed; each block one uncompressed LZMA2 chunk of 2 symbolic bytes, check None
+#[cfg_attr(kani, kani::proof)]
+#[cfg_attr(kani, kani::stub(std::fmt::format, crate::verif_common::stub_format))]
+#[cfg_attr(kani, kani::stub(std::io::Error::is_interrupted, crate::verif_common::stub_not_interrupted))]
+#[cfg_attr(kani, kani::stub(crate::decode::xz::read_block_header, crate::decode::xz::verif_h::scripted_block_header))]
+#[cfg_attr(kani, kani::stub(crate::decode::lzma::DecoderState::new, crate::decode::stream::verif_h::new_scripted_lit))]
+#[cfg_attr(kani, kani::stub(crate::decode::lzbuffer::LzAccumBuffer::from_stream, crate::decode::lzbuffer::verif_h::accum_from_stream_with_capacity))]
+pub fn xz_file_blocks2_dev0() {
+    xz_file_with_blocks::<2, 0>()
+}
+
+//@ harness props=C03,C06,C11,C07 tier=thorough optional=yes unwind=8 unwindset=update_table:20,ref_crc32.0:10,ref_crc32.1:20,default_read_exact:4,decompress:4,scripted_block_header:5,decode_stream:5,check_index:5,xz_file_with_blocks:10 mem_gb=12 timeout=900 native=no cbmc=--max-field-sensitivity-array-size;128
+//@ bound: decode_stream on a whole .xz file (block header parser scripted): two blocks, last index record off by one; each block one uncompressed LZMA2 chunk of 2 symbolic bytes, check None
+#[cfg_attr(kani, kani::proof)]
+#[cfg_attr(kani, kani::stub(std::fmt::format, crate::verif_common::stub_format))]
+#[cfg_attr(kani, kani::stub(std::io::Error::is_interrupted, crate::verif_common::stub_not_interrupted))]
+#[cfg_attr(kani, kani::stub(crate::decode::xz::read_block_header, crate::decode::xz::verif_h::scripted_block_header))]
+#[cfg_attr(kani, kani::stub(crate::decode::lzma::DecoderState::new, crate::decode::stream::verif_h::new_scripted_lit))]
+#[cfg_attr(kani, kani::stub(crate::decode::lzbuffer::LzAccumBuffer::from_stream, crate::decode::lzbuffer::verif_h::accum_from_stream_with_capacity))]
+pub fn xz_file_blocks2_dev1() {
+    xz_file_with_blocks::<2, 1>()
+}
+
+// ---------------------------------------------------------------------------------------
+// decode_stream's own glue with read_block and check_index replaced by scripted consumers:
+// a fresh byte counter per block / for the index (each callee is entered with count == 1: only
+// the size byte / index indicator has been read), blocks in order, index after the last block,
+// index size measured from the indicator, footer checks.
+// ---------------------------------------------------------------------------------------
+pub static GL_CALLS: AtomicU64 = AtomicU64::new(0);
+pub static GL_ENTRY_BAD: AtomicU64 = AtomicU64::new(0);
+pub static GL_RECORDS_AT_INDEX: AtomicU64 = AtomicU64::new(u64::MAX);
+pub static GL_HS_SEEN: AtomicU64 = AtomicU64::new(0);
+
+pub fn scripted_read_block<R, W>(
+    count_input: &mut util::CountBufRead<'_, R>,
+    _output: &mut W,
+    _check_method: CheckMethod,
+    records: &mut Vec<Record>,
+    header_size: u8,
+) -> error::Result<bool>
+where
+    R: io::BufRead,
+    W: io::Write,
+{
+    let k = GL_CALLS.load(Ordering::Relaxed);
+    GL_CALLS.store(k + 1, Ordering::Relaxed);
+    if count_input.count() != 1 {
+        GL_ENTRY_BAD.store(1, Ordering::Relaxed);
+    }
+    GL_HS_SEEN.store((GL_HS_SEEN.load(Ordering::Relaxed) << 8) | header_size as u64, Ordering::Relaxed);
+    let mut b = [0u8; 7];
+    match count_input.read_exact(&mut b) {
+        Ok(()) => {}
+        Err(e) => return Err(error::Error::IoError(e)),
+    }
+    records.push(Record { unpadded_size: 8, unpacked_size: 0 });
+    Ok(false)
+}
+
+pub fn scripted_check_index<R>(count_input: &mut util::CountBufRead<'_, R>, records: &[Record]) -> error::Result<()>
+where
+    R: io::BufRead,
+{
+    if count_input.count() != 1 {
+        GL_ENTRY_BAD.store(1, Ordering::Relaxed);
+    }
+    GL_RECORDS_AT_INDEX.store(records.len() as u64, Ordering::Relaxed);
+    let mut b = [0u8; 7];
+    match count_input.read_exact(&mut b) {
+        Ok(()) => Ok(()),
+        Err(e) => Err(error::Error::IoError(e)),
+    }
+}
+
+fn xz_stream_glue<const NB: usize>() {
+    let mut t = Tape::<32>::new();
+    let fill: [u8; 8] = t.bytes::<8>();
+    let bsize = t.u32();
+    GL_CALLS.store(0, Ordering::Relaxed);
+    GL_ENTRY_BAD.store(0, Ordering::Relaxed);
+    GL_RECORDS_AT_INDEX.store(u64::MAX, Ordering::Relaxed);
+    GL_HS_SEEN.store(0, Ordering::Relaxed);
+    let mut f = [0u8; 64];
+    let hdr = [0xFDu8, 0x37, 0x7A, 0x58, 0x5A, 0x00, 0x00, 0x01];
+    let mut n = 0usize;
+    while n < 8 {
+        f[n] = hdr[n];
+        n += 1;
+    }
+    let c = ref_crc32(&[0u8, 1u8]).to_le_bytes();
+    f[8] = c[0];
+    f[9] = c[1];
+    f[10] = c[2];
+    f[11] = c[3];
+    n = 12;
+    let mut b = 0;
+    while b < NB {
+        f[n] = (3 + b) as u8; // non-zero size byte: a block follows
+        let mut i = 1;
+        while i < 8 {
+            f[n + i] = fill[i];
+            i += 1;
+        }
+        n += 8;
+        b += 1;
+    }
+    f[n] = 0; // index indicator
+    let mut i = 1;
+    while i < 8 {
+        f[n + i] = fill[8 - i];
+        i += 1;
+    }
+    n += 8;
+    // footer: crc32, backward size (symbolic), flags, magic
+    let bs = bsize.to_le_bytes();
+    let ft = [bs[0], bs[1], bs[2], bs[3], 0u8, 1u8];
+    let c = ref_crc32(&ft).to_le_bytes();
+    f[n] = c[0];
+    f[n + 1] = c[1];
+    f[n + 2] = c[2];
+    f[n + 3] = c[3];
+    n += 4;
+    let mut k = 0;
+    while k < 6 {
+        f[n] = ft[k];
+        n += 1;
+        k += 1;
+    }
+    f[n] = 0x59;
+    f[n + 1] = 0x5A;
+    n += 2;
+    let mut rd = ArrReader::<64>::new(f, n);
+    let mut sink = RecSink::<4>::new();
+    let r = decode_stream(&mut rd, &mut sink);
+    let ok = r.is_ok();
+    forget(r);
+    vassert!(ok == (bsize == 1), "xz stream: accepted iff the footer's backward size equals the size of the index alone (measured from the index indicator)");
+    vassert!(GL_ENTRY_BAD.load(Ordering::Relaxed) == 0, "xz stream: every block and the index are parsed with a fresh byte counter (unpadded sizes and padding are relative to the block / index start)");
+    if ok {
+        vassert!(GL_CALLS.load(Ordering::Relaxed) == NB as u64, "xz stream: one read_block per block");
+        vassert!(GL_RECORDS_AT_INDEX.load(Ordering::Relaxed) == NB as u64, "xz stream: the index is checked against all decoded blocks, after the last one");
+        let want_hs: u64 = if NB == 0 { 0 } else if NB == 1 { 3 } else { (3 << 8) | 4 };
+        vassert!(GL_HS_SEEN.load(Ordering::Relaxed) == want_hs, "xz stream: each block is given its own size byte, in order");
+        vassert!(rd.pos == n, "xz stream: whole file consumed");
+    }
+    vcover!(ok, "stream_ok");
+    vcover!(!ok, "bad_backward_size");
+}
+
+//@ harness props=C03,C06,C11,C07 tier=quick unwind=10 unwindset=update_table:10,default_read_exact:4,decode_stream:5,xz_stream_glue:12 mem_gb=6 timeout=600 native=no
+//@ bound: decode_stream's block loop and footer with read_block / check_index scripted: 1 block(s), symbolic footer backward size
+#[cfg_attr(kani, kani::proof)]
+#[cfg_attr(kani, kani::stub(std::fmt::format, crate::verif_common::stub_format))]
+#[cfg_attr(kani, kani::stub(std::io::Error::is_interrupted, crate::verif_common::stub_not_interrupted))]
+#[cfg_attr(kani, kani::stub(crate::decode::xz::read_block, crate::decode::xz::verif_h::scripted_read_block))]
+#[cfg_attr(kani, kani::stub(crate::decode::xz::check_index, crate::decode::xz::verif_h::scripted_check_index))]
+pub fn xz_stream_glue_b1() {
+    xz_stream_glue::<1>()
+}
+
+//@ harness props=C03,C06,C11,C07 tier=quick unwind=10 unwindset=update_table:10,default_read_exact:4,decode_stream:5,xz_stream_glue:12 mem_gb=6 timeout=600 native=no
+//@ bound: decode_stream's block loop and footer with read_block / check_index scripted: 2 block(s), symbolic footer backward size
+#[cfg_attr(kani, kani::proof)]
+#[cfg_attr(kani, kani::stub(std::fmt::format, crate::verif_common::stub_format))]
+#[cfg_attr(kani, kani::stub(std::io::Error::is_interrupted, crate::verif_common::stub_not_interrupted))]
+#[cfg_attr(kani, kani::stub(crate::decode::xz::read_block, crate::decode::xz::verif_h::scripted_read_block))]
+#[cfg_attr(kani, kani::stub(crate::decode::xz::check_index, crate::decode::xz::verif_h::scripted_check_index))]
+pub fn xz_stream_glue_b2() {
+    xz_stream_glue::<2>()
+}
